@@ -4,9 +4,12 @@
 // Extracted, as data only:
 //
 //	flows/definition/legacy/expressions/functions.go   var callMigrators = map[string]callMigrator{ ... }
-//	      "name": asIs() | asRename(`n`) | asTemplate(`fmt`) | asJoin(`sep`) |
+//	      "name": asIs() | asRename(`n`) | asTemplate(`fmt`) | asOperatorTemplate(`fmt`, prec...) |
+//	              asJoin(`sep`, prec) |
 //	              asParamMigrators(`n`, pm...) | asParamMigratorsWithDefaults(`n`, []string{...}, pm...)
 //	      pm ::= paramAsIs() | paramDecremented() | paramBySpaces()
+//	      prec ::= integer literal | precXxx | precXxx + integer literal
+//	flows/definition/legacy/expressions/visitor.go     const ( precConcatenation = iota + 1; precEquality; ... precAtom )
 //	flows/definition/legacy/expressions/migrate.go     var functionReturnTypes = map[string]string{...}
 //	                                                   var ContextTopLevels = []string{...}
 //	flows/expressions.go                               var RunContextTopLevels = []string{...}
@@ -43,6 +46,7 @@ type entry struct {
 	Name     string   `json:"name"`
 	Kind     string   `json:"kind"` // asis | rename | template | join | params
 	Arg      string   `json:"arg,omitempty"`
+	Precs    []int    `json:"precs,omitempty"` // template: per parameter; join: one element
 	Defaults []string `json:"defaults,omitempty"`
 	PMs      []string `json:"pms,omitempty"` // asis | decremented | byspaces
 }
@@ -169,6 +173,79 @@ func stringMapLit(e ast.Expr, what string) [][2]string {
 	return out
 }
 
+// precedence constants of visitor.go: const ( precConcatenation = iota + 1; precEquality; ...; precAtom )
+var precNames = []string{"precConcatenation", "precEquality", "precComparison", "precAddition", "precMultiplication",
+	"precExponent", "precNegation", "precAtom"}
+
+func precConsts(f *ast.File, path string) map[string]int {
+	for _, d := range f.Decls {
+		gd, ok := d.(*ast.GenDecl)
+		if !ok || gd.Tok != token.CONST || len(gd.Specs) == 0 {
+			continue
+		}
+		first := gd.Specs[0].(*ast.ValueSpec)
+		if len(first.Names) != 1 || first.Names[0].Name != precNames[0] {
+			continue
+		}
+		// first spec must be `= iota + 1`, the others must have no value (implicit repetition)
+		ok = false
+		if len(first.Values) == 1 {
+			if be, isBin := first.Values[0].(*ast.BinaryExpr); isBin && be.Op == token.ADD {
+				id, isID := be.X.(*ast.Ident)
+				bl, isLit := be.Y.(*ast.BasicLit)
+				ok = isID && id.Name == "iota" && isLit && bl.Kind == token.INT && bl.Value == "1"
+			}
+		}
+		if !ok {
+			fatal("%s: %s is not declared as `iota + 1`", path, precNames[0])
+		}
+		out := map[string]int{}
+		for i, sp := range gd.Specs {
+			vs := sp.(*ast.ValueSpec)
+			if len(vs.Names) != 1 || (i > 0 && (len(vs.Values) != 0 || vs.Type != nil)) {
+				fatal("%s: precedence constant block has an unexpected shape at position %d", path, i)
+			}
+			out[vs.Names[0].Name] = i + 1
+		}
+		if len(out) != len(precNames) {
+			fatal("%s: expected the %d precedence constants %v, found %d", path, len(precNames), precNames, len(out))
+		}
+		for _, n := range precNames {
+			if _, has := out[n]; !has {
+				fatal("%s: precedence constant %s not found", path, n)
+			}
+		}
+		return out
+	}
+	fatal("%s: precedence constant block (const ( %s = iota + 1 ... )) not found", path, precNames[0])
+	return nil
+}
+
+// precExpr evaluates: integer literal | precXxx | precXxx + integer literal
+func precExpr(e ast.Expr, consts map[string]int, what string) int {
+	switch x := e.(type) {
+	case *ast.BasicLit:
+		if x.Kind == token.INT {
+			n, err := strconv.Atoi(x.Value)
+			if err == nil && n >= 0 && n < 100 {
+				return n
+			}
+		}
+	case *ast.Ident:
+		if v, ok := consts[x.Name]; ok {
+			return v
+		}
+	case *ast.BinaryExpr:
+		if x.Op == token.ADD {
+			if bl, ok := x.Y.(*ast.BasicLit); ok && bl.Kind == token.INT {
+				return precExpr(x.X, consts, what) + precExpr(bl, consts, what)
+			}
+		}
+	}
+	fatal("%s: precedence argument is not of the form  n | precXxx | precXxx + n", what)
+	return 0
+}
+
 var verbRe = regexp.MustCompile(`%(\[[0-9]+\])?.?`)
 
 // checkFormat accepts exactly the verbs the Coq model of fmt.Sprintf implements
@@ -231,10 +308,10 @@ func requireFuncs(f *ast.File, path string, sigs map[string]int) {
 	}
 }
 
-func extractTable(repo string) []entry {
+func extractTable(repo string, consts map[string]int) []entry {
 	path := filepath.Join(repo, "flows/definition/legacy/expressions/functions.go")
 	_, f := parseFile(path)
-	requireFuncs(f, path, map[string]int{"asIs": 0, "asRename": 1, "asTemplate": 1, "asJoin": 1, "asParamMigrators": 2,
+	requireFuncs(f, path, map[string]int{"asIs": 0, "asRename": 1, "asTemplate": 1, "asOperatorTemplate": 2, "asJoin": 2, "asParamMigrators": 2,
 		"asParamMigratorsWithDefaults": 3, "paramAsIs": 0, "paramDecremented": 0, "paramBySpaces": 0,
 		"migrateFunctionCall": 2, "renderCall": 2})
 	v := findVar(f, "callMigrators", path)
@@ -284,11 +361,21 @@ func extractTable(repo string) []entry {
 			}
 			e.Kind, e.Arg = "template", strLit(args[0], what)
 			checkFormat(name, e.Arg)
+		case "asOperatorTemplate":
+			if len(args) < 1 {
+				fatal("%s: asOperatorTemplate needs a template", what)
+			}
+			e.Kind, e.Arg = "template", strLit(args[0], what)
+			checkFormat(name, e.Arg)
+			for i, a := range args[1:] {
+				e.Precs = append(e.Precs, precExpr(a, consts, fmt.Sprintf("%s precedence %d", what, i)))
+			}
 		case "asJoin":
-			if len(args) != 1 {
-				fatal("%s: asJoin takes one argument", what)
+			if len(args) != 2 {
+				fatal("%s: asJoin takes two arguments", what)
 			}
 			e.Kind, e.Arg = "join", strLit(args[0], what)
+			e.Precs = []int{precExpr(args[1], consts, what+" precedence")}
 		case "asParamMigrators", "asParamMigratorsWithDefaults":
 			min := 1
 			if ctor == "asParamMigratorsWithDefaults" {
@@ -419,6 +506,14 @@ func coqStrs(xs []string) string {
 	return "[" + strings.Join(parts, "; ") + "]"
 }
 
+func coqNats(xs []int) string {
+	parts := make([]string, len(xs))
+	for i, x := range xs {
+		parts[i] = fmt.Sprintf("%d%%nat", x)
+	}
+	return "[" + strings.Join(parts, "; ") + "]"
+}
+
 func comment(s string) string {
 	s = strings.ReplaceAll(s, "(*", "( *")
 	s = strings.ReplaceAll(s, "*)", "* )")
@@ -445,7 +540,11 @@ func main() {
 	out := flag.String("out", "coq/gen", "output directory")
 	flag.Parse()
 
-	table := extractTable(*repo)
+	vpath := filepath.Join(*repo, "flows/definition/legacy/expressions/visitor.go")
+	_, vf := parseFile(vpath)
+	consts := precConsts(vf, vpath)
+	requireFuncs(vf, vpath, map[string]int{"precedenceOf": 1, "asOperand": 2})
+	table := extractTable(*repo, consts)
 
 	mpath := filepath.Join(*repo, "flows/definition/legacy/expressions/migrate.go")
 	_, mf := parseFile(mpath)
@@ -462,7 +561,7 @@ func main() {
 	letters, digits := unicodeRanges(*repo)
 
 	var sb strings.Builder
-	sb.WriteString("(* GENERATED by translators/cmd/legacytable from flows/definition/legacy/expressions/{functions,migrate}.go,\n")
+	sb.WriteString("(* GENERATED by translators/cmd/legacytable from flows/definition/legacy/expressions/{functions,migrate,visitor}.go,\n")
 	sb.WriteString("   flows/expressions.go and antlr/LexUnicode.g4 -- do not edit; regenerated on every run of bin/check C17 *)\n")
 	sb.WriteString("From Coq Require Import List NArith.\nFrom Verif Require Import model.LegacyTy.\nImport ListNotations.\nOpen Scope N_scope.\n\n")
 	sb.WriteString("Definition legacy_table : list (text * cmig) := [\n")
@@ -478,9 +577,9 @@ func main() {
 		case "rename":
 			v = "Rename " + coqStr(e.Arg)
 		case "template":
-			v = "Template " + coqStr(e.Arg)
+			v = "Template " + coqStr(e.Arg) + " " + coqNats(e.Precs)
 		case "join":
-			v = "Join " + coqStr(e.Arg)
+			v = fmt.Sprintf("Join %s %d%%nat", coqStr(e.Arg), e.Precs[0])
 		case "params":
 			pms := make([]string, len(e.PMs))
 			for j, p := range e.PMs {
@@ -500,6 +599,12 @@ func main() {
 		fmt.Fprintf(&sb, "  (%s, %s)%s  (* %s -> %s *)\n", coqStr(kv[0]), coqStr(kv[1]), sep, comment(kv[0]), comment(kv[1]))
 	}
 	sb.WriteString("].\n\n")
+	sb.WriteString("(* visitor.go: const ( precConcatenation = iota + 1; ... ) *)\n")
+	for _, n := range precNames {
+		cn := "prec_" + strings.ToLower(n[4:])
+		fmt.Fprintf(&sb, "Definition %s : nat := %d%%nat.\n", cn, consts[n])
+	}
+	sb.WriteString("\n")
 	fmt.Fprintf(&sb, "(* migrate.go: ContextTopLevels = %s *)\nDefinition legacy_top_levels : list text := %s.\n\n", comment(strings.Join(legacyTops, " ")), coqStrs(legacyTops))
 	fmt.Fprintf(&sb, "(* flows/expressions.go: RunContextTopLevels = %s *)\nDefinition run_top_levels : list text := %s.\n\n", comment(strings.Join(runTops, " ")), coqStrs(runTops))
 	emitRanges := func(name string, rs [][2]int) {
@@ -520,7 +625,7 @@ func main() {
 	emitRanges("udigit_ranges", digits)
 	writeIfChanged(filepath.Join(*out, "LegacyTable.v"), sb.String())
 
-	js, err := json.MarshalIndent(map[string]any{"table": table, "function_return_types": retTypes,
+	js, err := json.MarshalIndent(map[string]any{"table": table, "function_return_types": retTypes, "precedences": consts,
 		"legacy_top_levels": legacyTops, "run_top_levels": runTops}, "", " ")
 	if err != nil {
 		fatal("%v", err)
